@@ -363,6 +363,49 @@ func main() {
 		e.opts.FuncGran = true
 		trf, _ := e.runOnce(nil)
 		fmt.Printf("{\"scenario\":%q,\"sequential_steps_stmt\":%d,\"sequential_steps_func\":%d}\n", sc.Name, e.SeqSteps, trf.Steps)
+	case "cover":
+		// c07run cover <funcs.json> <cfg>: which instrumented functions do the scenarios execute under the scheduler?
+		var names []string
+		raw, _ := os.ReadFile(os.Args[2])
+		_ = json.Unmarshal(raw, &names)
+		vsched.CovOn = true
+		for _, scn := range c07sc.Scenarios {
+			if strings.HasPrefix(scn.Name, "S7") {
+				continue
+			}
+			sc := scn
+			e := &explorer{sc: &sc, cfg: core.MustCfg(os.Args[3]), Shapes: map[uint64]bool{}, Outcomes: map[string]int64{}, ByCost: map[int]int64{}}
+			e.reference()
+			e.runOnce(nil)
+			e.runOnce([]vsched.Decision{{Free: true, FP: 0, Thread: 1}})
+		}
+		vsched.CovOn = false
+		type rep struct {
+			Total        int      `json:"functions_instrumented"`
+			Managed      int      `json:"executed_by_a_managed_goroutine"`
+			Shared       int      `json:"executed_by_two_or_more_managed_goroutines"`
+			OnlyUnmanged int      `json:"executed_only_outside_the_scheduler"`
+			Never        []string `json:"never_executed"`
+		}
+		var rp rep
+		rp.Total = len(names)
+		for id, nm := range names {
+			c := vsched.Cov[id]
+			m := c & 0x0f
+			switch {
+			case m != 0:
+				rp.Managed++
+				if m&(m-1) != 0 {
+					rp.Shared++
+				}
+			case c != 0:
+				rp.OnlyUnmanged++
+			default:
+				rp.Never = append(rp.Never, nm)
+			}
+		}
+		b, _ := json.Marshal(rp)
+		fmt.Println(string(b))
 	case "explore":
 		a := os.Args[2:]
 		sc := c07sc.Find(a[0])
